@@ -23,7 +23,14 @@ LEVEL_TEXT = ("Lean 4 theorems for all workspaces/histories of the model: a comm
 LEVEL_NOTE = ("noop_rebuild is proved as noop_rebuild_partial under WF; the full statement is refuted by globout_witness (open known "
               "finding). 'Irrespective of timing / checkout location' is by construction of the model (no such field in the key-state) "
               "and only sampled on the real side. F-mkdir family (parent directory of a cached file output deleted) is excluded from the "
-              "generators until repaired by agent stores.")
+              "generators until repaired by agent stores. executes_only_if / unchanged_not_executed / reexec_subset are per step and mode "
+              "all; both modes execute the same commands by C15.same_verdict_and_execs_holds (lock step, fuel sufficiency "
+              "Build.fuel_ok). reexec_subset_history takes a set D closed under dependants, one order well-formed for the old and the new "
+              "definitions, Plain (cache enabled, no no-cache target) and one edit between two builds; early cut-off at history level is "
+              "the per-step early_cutoff plus the sampled oracle (3); the downstream set is tied to the query in ComposeQuery "
+              "(reexec_downstream). restore_total / key_location_free are facts about the model's shape (no such input to the decision "
+              "/ no such field in the key-state); the Go side is sampled (families tamper, dirs, relocate). Non-empty instances: "
+              "Compose.ex_noop_rebuild (two targets, real key).")
 TECHNIQUE = "Lean 4 proof over an executable model + history correspondence with the real CLI + executed-set oracles"
 OBLIGATIONS = [
     "Grog.C02.executes_only_if",
@@ -38,6 +45,7 @@ OBLIGATIONS = [
     "Grog.C02.globout_witness",
     "Grog.Compose.noop_rebuildK",
     "Grog.Compose.noop_rebuild_real",
+    "Grog.Compose.ex_noop_rebuild",
 ]
 PROP_MODULES = ["GrogModel.Props.C02", "GrogModel.Props.ComposeBuild"]
 ASSUMPTIONS = [
@@ -47,7 +55,7 @@ ASSUMPTIONS = [
 ]
 
 FAMILIES_QUICK = [("edits", 6, {}), ("tamper", 6, {}), ("dirs", 6, {}), ("cutoff", 3, {}), ("alias", 3, {}), ("nocache", 3, {}),
-                  ("taintedit", 4, {}), ("relocate", 4, {}), ("disabled", 4, {}), ("samehash", 0, {}), ("edits", 3, {"minimal": True}),
+                  ("taintedit", 4, {}), ("relocate", 4, {}), ("disabled", 4, {}), ("samehash", 4, {}), ("edits", 3, {"minimal": True}),
                   ("wipe", 3, {}), ("wipe", 3, {"minimal": True})]
 FAMILIES_THOROUGH = [(f, n * 15, kw) for f, n, kw in FAMILIES_QUICK]
 
